@@ -185,6 +185,9 @@ func (in *inst) apply(o Op) {
 		case "B":
 			got, err := q.Bytes(o.N)
 			in.checkRead("Bytes", o.N, got, err)
+			for i := range got { // what the caller does with the slice it was given must not reach the queue
+				got[i] ^= 0xA5
+			}
 		case "Rd":
 			buf := bytes.Repeat([]byte{0xEE}, o.N)
 			n, err := q.Read(buf)
@@ -278,15 +281,23 @@ func (in *inst) apply(o Op) {
 		// ---- writes
 		case "W":
 			bs := m.gen(o.N)
-			if err := q.WriteBytes(bs); err != nil {
+			arg := append([]byte{}, bs...)
+			if err := q.WriteBytes(arg); err != nil {
 				in.fail("C15|tx|WriteBytes|error", err.Error())
+			}
+			for i := range arg { // the caller reuses its buffer (io.Writer: Write must not retain p)
+				arg[i] ^= 0xA5
 			}
 			in.mwrite(bs)
 		case "Wr":
 			bs := m.gen(o.N)
-			n, err := q.Write(bs)
+			arg := append([]byte{}, bs...)
+			n, err := q.Write(arg)
 			if err != nil || n != o.N {
 				in.fail("C15|tx|Write|error", fmt.Sprintf("n=%d err=%v", n, err))
+			}
+			for i := range arg {
+				arg[i] ^= 0xA5
 			}
 			in.mwrite(bs)
 		case "W8":
